@@ -46,7 +46,7 @@ theorem setters_in_ok :
 
 def nonSetterCmds : List Str :=
   ["JOIN".toList, "PART".toList, "KICK".toList, "QUIT".toList, "NICK".toList, "MODE".toList, "TOPIC".toList,
-   "CHGHOST".toList, "352".toList, "354".toList, "315".toList, "324".toList, "329".toList, "367".toList, "368".toList]
+   "CHGHOST".toList, "PRIVMSG".toList, "352".toList, "354".toList, "315".toList, "324".toList, "329".toList, "367".toList, "368".toList]
 
 theorem setters_out_ok : ∀ c ∈ nonSetterCmds, c ∉ Gen.nickSetters := by decide
 
